@@ -152,71 +152,74 @@ inductive Eff
   | appendedHere (m : Nat) -- `recd m` was appended to the iterated list
   deriving Repr, DecidableEq
 
-/-- `cb(self, *a)` for request `i` in thread `t` while `emit(e, *a)` iterates -/
+/-- `cb(self, *a)` for request `i` in thread `t` while `emit(e, *a)` iterates.  The world returned is
+the one the callback left behind, also when it raised. -/
 def callCb (w : World) (t : ThreadId) (i : Nat) (e : Str) (args : List RVal) (cb : Cb) :
-    Except Err (World × Eff) :=
+    World × Except Err Eff :=
   match w.reqs[i]? with
-  | none => .error .indexError
+  | none => (w, .error .indexError)
   | some r =>
     match cb with
     | .builtin =>
       match args with
       | [.plain (.str k), _] =>
-        match r.env t with
-        | none => .error .attributeError               -- `env.pop` on `None`
-        | some env => .ok (w.setReq i (r.setEnv t (onEnvChanged env k)), .same)
-      | [_, _] => .error .attributeError                -- `key.startswith` on a non-string
-      | _ => .error .typeError                          -- wrong number of arguments
-    | .recd n => .ok ({ w with log := w.log ++ [⟨n, i, args⟩] }, .same)
+        if (todelete k).isEmpty then (w, .ok .same)      -- the comprehension over `()` touches nothing
+        else
+          match r.env t with
+          | none => (w, .error .attributeError)          -- `env.pop` on `None`
+          | some env => (w.setReq i (r.setEnv t (onEnvChanged env k)), .ok .same)
+      | [_, _] => (w, .error .attributeError)            -- `key.startswith` on a non-string
+      | _ => (w, .error .typeError)                      -- wrong number of arguments
+    | .recd n => ({ w with log := w.log ++ [⟨n, i, args⟩] }, .ok .same)
     | .once e' n =>
       let w1 : World := { w with log := w.log ++ [Ev.mk n i args] }
       match offL r.listeners e' cb with
-      | .error x => .error x
-      | .ok l => .ok (w1.setReq i { r with listeners := l }, if e' = e then .removedHere else .same)
+      | .error x => (w1, .error x)
+      | .ok l => (w1.setReq i { r with listeners := l }, .ok (if e' = e then .removedHere else .same))
     | .adder e' n m =>
       let w1 : World := { w with log := w.log ++ [Ev.mk n i args] }
-      .ok (w1.setReq i { r with listeners := onL r.listeners e' (.recd m) },
-           if e' = e then .appendedHere m else .same)
+      (w1.setReq i { r with listeners := onL r.listeners e' (.recd m) },
+       .ok (if e' = e then .appendedHere m else .same))
 
 /-- the tail of `emit`: the callbacks appended while it ran (all of the form `recd m`) -/
-def emitAdded (t : ThreadId) (i : Nat) (e : Str) (args : List RVal) : List Nat → World → Except Err World
-  | [], w => .ok w
+def emitAdded (t : ThreadId) (i : Nat) (e : Str) (args : List RVal) : List Nat → World → World × Option Err
+  | [], w => (w, none)
   | m :: r, w =>
     match callCb w t i e args (.recd m) with
-    | .error x => .error x
-    | .ok (w', _) => emitAdded t i e args r w'
+    | (w', .error x) => (w', some x)
+    | (w', .ok _) => emitAdded t i e args r w'
 
 /-- `[cb(self, *a, **kw) for cb in self.__listeners__[e]]`: the comprehension walks the LIVE list by
 index.  `pending` = the entries after the running one as they are now, `added` = what was appended
 during this `emit`.  A callback that removes itself shifts the rest left: the next entry is
-skipped. -/
+skipped.  An exception ends the walk; what ran before it stays done. -/
 def emitLoop (t : ThreadId) (i : Nat) (e : Str) (args : List RVal) :
-    List Cb → List Nat → World → Except Err World
+    List Cb → List Nat → World → World × Option Err
   | [], added, w => emitAdded t i e args added w
   | [cb], added, w =>
     match callCb w t i e args cb with
-    | .error x => .error x
-    | .ok (w', .same) => emitAdded t i e args added w'
-    | .ok (w', .removedHere) => emitAdded t i e args (added.drop 1) w'
-    | .ok (w', .appendedHere m) => emitAdded t i e args (added ++ [m]) w'
+    | (w', .error x) => (w', some x)
+    | (w', .ok .same) => emitAdded t i e args added w'
+    | (w', .ok .removedHere) => emitAdded t i e args (added.drop 1) w'
+    | (w', .ok (.appendedHere m)) => emitAdded t i e args (added ++ [m]) w'
   | cb :: nxt :: rest, added, w =>
     match callCb w t i e args cb with
-    | .error x => .error x
-    | .ok (w', .same) => emitLoop t i e args (nxt :: rest) added w'
-    | .ok (w', .removedHere) => emitLoop t i e args rest added w'
-    | .ok (w', .appendedHere m) => emitLoop t i e args (nxt :: rest) (added ++ [m]) w'
+    | (w', .error x) => (w', some x)
+    | (w', .ok .same) => emitLoop t i e args (nxt :: rest) added w'
+    | (w', .ok .removedHere) => emitLoop t i e args rest added w'
+    | (w', .ok (.appendedHere m)) => emitLoop t i e args (nxt :: rest) (added ++ [m]) w'
 
 /-- `BaseRequest.emit`
 ```
 if e not in self.__listeners__: return
 [cb(self, *a, **kw) for cb in self.__listeners__[e]]
 ``` -/
-def emit (w : World) (t : ThreadId) (i : Nat) (e : Str) (args : List RVal) : Except Err World :=
+def emit (w : World) (t : ThreadId) (i : Nat) (e : Str) (args : List RVal) : World × Option Err :=
   match w.reqs[i]? with
-  | none => .error .indexError
+  | none => (w, some .indexError)
   | some r =>
     match r.listeners.get? e with
-    | none => .ok w
+    | none => (w, none)
     | some cbs => emitLoop t i e args cbs [] w
 
 /-! ### construction -/
@@ -323,9 +326,8 @@ def setItem (w : World) (t : ThreadId) (i : Nat) (k : Key) (v : RVal) : Except E
         else
           let w1 := w.setReq i (r.setEnv t (env.set k v))
           match emit w1 t i evChanged [.plain (.str k), v] with
-          | .ok w2 => (.ok (), w2)
-          | .error x => (.error x, w1)   -- listeners that already ran keep their effects in the log only
-                                         -- up to the failing one; the model keeps the assignment
+          | (w2, none) => (.ok (), w2)
+          | (w2, some x) => (.error x, w2)   -- the assignment and the listeners that ran stay done
 
 /-- `BaseRequest.__delitem__`: `self[key] = ""; del self.environ[key]` -/
 def delItem (w : World) (t : ThreadId) (i : Nat) (k : Key) : Except Err Unit × World :=
@@ -486,8 +488,8 @@ def step (w : World) : Op → World × Ans
         | .ok l => (w.setReq i { r with listeners := l }, .unit)
   | .emit t i e args =>
     match emit w t i e args with
-    | .ok w' => (w', .unit)
-    | .error x => (w, .err x)
+    | (w', none) => (w', .unit)
+    | (w', some x) => (w', .err x)
   | .get t i k d =>
     match w.reqs[i]? with
     | none => (w, .err .indexError)
